@@ -242,8 +242,70 @@ def gen_unparse_tables(U):
     return out
 
 
+def coq_list(f, xs):
+    return "[" + "; ".join(f(x) for x in xs) + "]"
+
+
+def coq_opt(f, x):
+    return "None" if x is None else "(Some " + f(x) + ")"
+
+
+def coq_const(v):
+    if v is None:
+        return "CNone"
+    if v is True:
+        return "CTrue"
+    if v is False:
+        return "CFalse"
+    if v is Ellipsis:
+        return "CEllipsis"
+    if isinstance(v, int):
+        return f"(CInt ({v})%Z)"
+    if isinstance(v, str):
+        return "(CStr (s2t " + coq_str(v) + "))"
+    raise TableError(f"constant {v!r} in a preset")
+
+
+def coq_expr(n):
+    """Python expression AST -> Coq term of type PyAst.expr (only the node kinds presets use)."""
+    t = type(n).__name__
+    if t == "Name":
+        return f"(Name {coq_str(n.id)})"
+    if t == "Constant":
+        return f"(Constant {coq_const(n.value)})"
+    if t == "NamedExpr":
+        return f"(NamedExpr {coq_str(n.target.id)} {coq_expr(n.value)})"
+    if t == "Call":
+        kws = coq_list(lambda k: f"({coq_opt(coq_str, k.arg)}, {coq_expr(k.value)})", n.keywords)
+        return f"(Call {coq_expr(n.func)} {coq_list(coq_expr, n.args)} {kws})"
+    if t in ("Tuple", "List", "Set"):
+        return f"(E{t} {coq_list(coq_expr, n.elts)})"
+    if t == "Dict":
+        return f"(EDict {coq_list(lambda k: coq_opt(coq_expr, k), n.keys)} {coq_list(coq_expr, n.values)})"
+    if t == "Attribute":
+        return f"(Attribute {coq_expr(n.value)} {coq_str(n.attr)})"
+    if t == "Subscript":
+        return f"(Subscript {coq_expr(n.value)} {coq_expr(n.slice)})"
+    if t == "IfExp":
+        return f"(IfExp {coq_expr(n.test)} {coq_expr(n.body)} {coq_expr(n.orelse)})"
+    if t == "UnaryOp":
+        return f"(UnaryOp {type(n.op).__name__} {coq_expr(n.operand)})"
+    if t == "Lambda":
+        a = n.args
+        g = lambda f: getattr(a, f, None)
+        return ("(Lambda " + coq_list(lambda x: coq_str(x.arg), a.posonlyargs) + " " + coq_list(lambda x: coq_str(x.arg), a.args)
+                + " " + coq_opt(lambda x: coq_str(x.arg), g("vararg")) + " " + coq_list(lambda x: coq_str(x.arg), a.kwonlyargs)
+                + " " + coq_list(lambda d: coq_opt(coq_expr, d), a.kw_defaults) + " " + coq_opt(lambda x: coq_str(x.arg), g("kwarg"))
+                + " " + coq_list(coq_expr, a.defaults) + " " + coq_expr(n.body) + ")")
+    raise TableError(f"node kind {t} in a preset")
+
+
 def gen_converter_tables():
     out = []
+    PR = sys.modules["oneliner.presets"]
+    if PR.iter_wrapper_name.id != "__ol_iter_wrapper":
+        raise TableError("iter_wrapper_name changed")
+    out.append("Definition preset_iter_wrapper : expr := " + coq_expr(PR.iter_wrapper_body) + ".")
     P = sys.modules["oneliner.pending_nodes"]
     C = sys.modules["oneliner.convert"]
     CFG = sys.modules["oneliner.config"]
@@ -278,9 +340,10 @@ def generate():
         sys.path.insert(0, REPO)
     importlib.invalidate_caches()
     import oneliner  # noqa
+    import oneliner.presets  # noqa
     U = sys.modules["oneliner.expr_unparse"]
     body = ["(* GENERATED by harness/gen_tables.py from the repository's current source. Do not edit. *)",
-            "From Coq Require Import String List NArith.",
+            "From Coq Require Import String List NArith ZArith.",
             "From OL Require Import PyAst.",
             "Import ListNotations.",
             "Open Scope string_scope.",
